@@ -25,6 +25,7 @@
 import Bcder.Lemmas.LeafSafe
 import Bcder.Props.C09
 import Bcder.Props.C16b
+import Bcder.Props.C11c
 namespace Bcder.Props.C01c
 open Bcder Bcder.Spec Prog Bcder.Props.C02
 
@@ -604,6 +605,48 @@ theorem safeK_capture (op : Cons → Prog Cons) (hnc : ∀ c, NoCap (op c))
         exact ⟨lim - k, rfl, by omega⟩
       · intro h; rw [hl] at h; cases h
 
+/-- the same for closures that capture again (`C11c.Framable`: behaving under an open capture frame
+    as without it — capture-free programs, sequences of framable ones, captures of framable ones) -/
+theorem safeK_captureF (op : Cons → Prog Cons) (hfr : ∀ c, C11c.Framable (op c))
+    (hop : SafeK (fun c => do let c' ← op c; pure ((), c'))) : SafeK (fun c => capture c op) := by
+  intro c g hpre
+  have hf := hpre.1
+  have hg := g0_eq_St g hf
+  obtain ⟨n1, p1⟩ := hop c g hpre
+  simp only [runG0_bind] at n1 p1
+  rw [hg, C11c.capture_run1 c op hfr g.data g.limit, ← hg]
+  cases hr : runG0 (op c) g with
+  | error e =>
+    rw [hr] at n1
+    exact ⟨fun s h => by cases h; exact n1 s rfl, fun a c' g' h => by cases h⟩
+  | ok x =>
+    obtain ⟨c1, g1⟩ := x
+    rw [hr] at p1
+    obtain ⟨⟨hf1, k, hk, hd, ha, hn⟩, hs⟩ := p1 () c1 g1 rfl
+    have hlen : g.data.length - g1.data.length = k := by rw [hd, List.length_drop]; omega
+    simp only [hlen]
+    cases hl : g.limit with
+    | none =>
+      refine ⟨notPanic_ok _, fun a c' g' h => ?_⟩
+      simp only [Except.ok.injEq, Prod.mk.injEq] at h
+      obtain ⟨⟨_, rfl⟩, rfl⟩ := h
+      refine ⟨⟨rfl, k, hk, hd, ?_, fun _ => rfl⟩, hs⟩
+      intro l hl'; rw [hl] at hl'; cases hl'
+    | some lim =>
+      obtain ⟨l1, _, hle⟩ := ha lim hl
+      have hlt : ¬ lim < k := by omega
+      simp only [hlt, if_false]
+      refine ⟨notPanic_ok _, fun a c' g' h => ?_⟩
+      simp only [Except.ok.injEq, Prod.mk.injEq] at h
+      obtain ⟨⟨_, rfl⟩, rfl⟩ := h
+      refine ⟨⟨rfl, k, hk, hd, ?_, ?_⟩, hs⟩
+      · intro l hl'
+        rw [hl] at hl'
+        simp only [Option.some.injEq] at hl'
+        subst hl'
+        exact ⟨lim - k, rfl, by omega⟩
+      · intro h; rw [hl] at h; cases h
+
 /-- changing the value a reader returns does not matter -/
 theorem safeK_of_map {α β : Type} (k1 : Cons → Prog (α × Cons)) (k2 : Cons → Prog (β × Cons)) (f : α → β)
     (h : ∀ c g, runG0 (k2 c) g = match runG0 (k1 c) g with
@@ -844,6 +887,9 @@ inductive Reader : {α : Type} → (Cons → Prog (α × Cons)) → Prop
   /-- `capture` around any capture-free closure that is itself a reader -/
   | capture (f : Cons → Prog Cons) (hnc : ∀ c, NoCap (f c)) (h : Reader (fun c => do let c' ← f c; pure ((), c'))) :
       Reader (fun c => Bcder.capture c f)
+  /-- `capture` around a closure that captures again (nested captures, to any depth) -/
+  | captureF (f : Cons → Prog Cons) (hfr : ∀ c, C11c.Framable (f c)) (h : Reader (fun c => do let c' ← f c; pure ((), c'))) :
+      Reader (fun c => Bcder.capture c f)
 /-- closures on the content of one value -/
 inductive Closure : {α : Type} → (Content → Prog (α × Content)) → Prop
   /-- `content.as_primitive()?` and a typed accessor (`to_bool`, `to_u8` … `to_i128`, `to_null`, `Integer`, `Oid`, …) -/
@@ -872,6 +918,7 @@ theorem reader_safe : ∀ {α : Type} {k : Cons → Prog (α × Cons)}, Reader k
   | _, _, .captureOne N => safeK_captureOne N
   | _, _, .captureAll N => safeK_captureAll N
   | _, _, .capture f hnc h => safeK_capture f hnc (reader_safe h)
+  | _, _, .captureF f hfr h => safeK_captureF f hfr (reader_safe h)
 theorem closure_safe : ∀ {α : Type} {op : Content → Prog (α × Content)}, Closure op → SafeC op
   | _, _, .prim p hp => safeC_prim p hp
   | _, _, .content f h1 h2 => safeC_content f h1 h2
@@ -995,5 +1042,42 @@ theorem sample2_never_panics (m : Mode) (d : Bytes) (s : String) :
 example : ∃ g, runG0 (decodeTop .ber sample2)
     (St [0x24, 0x80, 0x04, 0x01, 0x61, 0x04, 0x01, 0x62, 0x00, 0x00, 0x05, 0x00, 0x02, 0x01, 0x07] none) =
     .ok ((.cons [0x04, 0x01, 0x61, 0x04, 0x01, 0x62], [0x05, 0x00, 0x02, 0x01, 0x07]), g) := ⟨_, rfl⟩
+
+/-! ### nested captures -/
+
+/-- the closure of the D12b witness: two `capture_all` in a row -/
+def twoAll (N : Nat) (c : Cons) : Prog Cons := do
+  let (_, c1) ← captureAll c N
+  let (_, c2) ← captureAll c1 N
+  pure c2
+
+theorem framable_twoAll (N : Nat) (c : Cons) : C11c.Framable (twoAll N c) := by
+  unfold twoAll
+  refine C11c.framable_bind _ _ ((C11c.good_captureAll N).framable c) (fun x => ?_)
+  obtain ⟨_, c1⟩ := x
+  refine C11c.framable_bind _ _ ((C11c.good_captureAll N).framable c1) (fun y => ?_)
+  obtain ⟨_, c2⟩ := y
+  exact C11c.framable_pure _
+
+theorem reader_nested (N : Nat) : Reader (fun c => capture c (twoAll N)) := by
+  refine Reader.captureF (twoAll N) (framable_twoAll N) ?_
+  have base := Reader.map _ (fun (_ : Bytes × Bytes) => some ()) (Reader.seq _ _ (Reader.captureAll N) (Reader.captureAll N))
+  have e : (fun c => do
+      let (a, c1) ← (do let (a, c1) ← captureAll c N; let (b, c2) ← captureAll c1 N; pure ((a, b), c2) : Prog ((Bytes × Bytes) × Cons))
+      match (fun (_ : Bytes × Bytes) => some ()) a with
+      | some b => pure (b, c1)
+      | none => Prog.contentErr : Cons → Prog (Unit × Cons)) =
+      (fun c => do let c' ← twoAll N c; pure ((), c')) := by
+    funext c
+    simp only [twoAll, Prog.bind_assoc]
+    rfl
+  rw [← e]
+  exact base
+
+/-- **a capture whose closure captures again never reaches a panic site** (in particular the
+    `truncate` of the captured octets by the recorded marker size cannot underflow) -/
+theorem nested_capture_never_panics (N : Nat) (m : Mode) (d : Bytes) (s : String) :
+    runG0 (decodeTop m (fun c => capture c (twoAll N))) (St d none) ≠ .error (.panic s) :=
+  decode_never_panics _ (reader_nested N) m d s
 
 end Bcder.Props.C01c
